@@ -133,6 +133,13 @@ def model_std(name, ints=(), floats=()):
 def run(chk):
     rng = chk.rng
     quick = chk.tier == "quick"
+    phases, t_last = {}, [time.time()]
+
+    def mark(name):
+        now = time.time()
+        phases[name] = round(now - t_last[0], 1)
+        t_last[0] = now
+    chk.coverage["phase_seconds"] = phases
     chk.trusted += [
         "translate/std_int.py: reads the xray source of date/julian_day/weekday/fraction/Fraction arithmetic/datetime/unix faithfully "
         "(fails closed; every generated definition is also run against the interpreter)",
@@ -147,6 +154,7 @@ def run(chk):
     if not ok:
         handle_broken(chk)
 
+    mark("proofs (lake build incl. waiting for the shared lock, audit)")
     # ---------------------------------------------------------------------------------------- dates
     if quick:
         ranges = [(-3000000, 400), (3000000 - 399, 400), (-1500, 400), (-200, 400), (1721000, 500), (2299000, 400), (2440400, 400),
@@ -188,6 +196,7 @@ def run(chk):
             chk.violation("tie:julian_day", f"generated Lean julian_day({y},{m},{d}) = {mres[i]}, interpreter (and calendar) say {want}",
                           {"model": model_std("julian_day", (y, m, d)), "src": replay["src"]}, no_input=True)
 
+    mark("dates")
     # ---------------------------------------------------------------------------------------- fractions
     def big(r):
         k = r.choice([0, 1, 2, 3, 8, 16, 31, 32, 52, 53, 54, 62, 63, 64, 65, 69, 70])
@@ -258,6 +267,7 @@ def run(chk):
                           {"model": mline, "src": replay["src"]}, no_input=True)
     chk.sample({"lang": fcases[0][1], "expected": fcases[0][3]})
 
+    mark("fractions")
     # ---------------------------------------------------------------------------------------- datetime / unix
     tcases = []
     for _ in range(300 if quick else 20000):
@@ -336,6 +346,7 @@ def run(chk):
         elif (t >= 0 and u[0] != t) or abs(u[0] - t) > 2.0 ** -40:
             chk.violation("lang:unix:float-roundtrip", f"datetime({t!r}).unix() = {u[0]!r}", replay)
 
+    mark("datetime")
     # ---------------------------------------------------------------------------------------- chr / code_point
     scal = [0, 1, 9, 10, 31, 32, 34, 65, 92, 127, 128, 233, 0x7FF, 0x800, 0xD7FF, 0xE000, 0xFFFD, 0xFFFF, 0x10000, 0x1F600, 0x10FFFF]
     bad = [-1, -2 ** 31, 0xD800, 0xDBFF, 0xDC00, 0xDFFF, 0x110000, 2 ** 31, 2 ** 32 - 1, 2 ** 32, 2 ** 40, 2 ** 64, -2 ** 64]
@@ -404,6 +415,7 @@ def run(chk):
         if d != w:
             chk.violation("lang:radix:roundtrip", f"{e} = {d}, expected {w}", {"src": f"let r = {e};", "get": ["r"]})
 
+    mark("chr/radix")
     # ---------------------------------------------------------------------------------------- JSON
     ALPH = [34, 92, 47, 8, 9, 10, 12, 13, 0, 1, 31, 127, 32, 97, 98, 122, 65, 48, 0xE9, 0x2028, 0xFFFF, 0xE000, 0xD7FF, 0x1F600, 0x10FFFF]
     SIMPLE_NUMS = [0.0, 1.0, -1.0, 1.5, -2.25, 100.0, 0.5, 1024.0, -0.0048828125, 255.0, 3.0, 1e15]
@@ -593,6 +605,7 @@ def run(chk):
             elif m != "ok " + (",".join(str(ord(c)) for c in want) if want else "-"):
                 chk.violation("tie:json:unescape", f"model unescapeStr {t!r} = {m}, implementation {want!r}", {"model": "conv unescape", "text": t}, no_input=True)
 
+    mark("json")
     return chk.finish(rule="Julian days: blocks of consecutive days through date/julian_day/weekday (quick: ±3 000 000 ends, era/century boundaries, "
                            "40 random blocks, beyond 2^53 and 2^70; thorough: all 6 000 001 days of ±3 000 000); fractions: operand pairs up to 2^70 "
                            "incl. negative/zero/common factors through fraction and every Fraction operation; datetime/unix: dyadic times in ±10^11 s; "
